@@ -86,24 +86,34 @@ Proof.
   rewrite firstn_app, Nat.sub_diag, firstn_all. cbn [firstn]. rewrite app_nil_r. reflexivity.
 Qed.
 
-(* no magic number at the start of the window: uncompressed SAM, whatever the window length *)
+(* no gzip / BAM magic at the start of the window, and "CRAM" only when followed by a byte that
+   continues SAM text: uncompressed SAM, whatever the window length *)
 Lemma detect_a_sam_none : forall w i,
-  (forall r, w <> 31 :: 139 :: r) -> (forall r, w <> BAM_MAGIC ++ r) -> (forall r, w <> CRAM_MAGIC ++ r) ->
+  (forall r, w <> 31 :: 139 :: r) -> (forall r, w <> BAM_MAGIC ++ r) ->
+  (forall r, w = CRAM_MAGIC ++ r -> exists b r', r = b :: r' /\ sam_cont b = true) ->
   detect_a w i = Ok (Sam, CNone).
 Proof.
   intros w i Hg Hb Hc. unfold detect_a, build_a. rewrite (detect_compression_none w Hg).
   unfold detect_format_a. destruct (get_to 4 w) as [b|] eqn:E; [|reflexivity].
   destruct (get_to_prefix _ _ _ E) as [r [Hw Hl]].
   rewrite eqb_bytes_neq by (intro X; subst b; apply (Hb r); exact Hw).
-  rewrite eqb_bytes_neq by (intro X; subst b; apply (Hc r); exact Hw).
-  reflexivity.
+  destruct (eqb_bytes b CRAM_MAGIC) eqn:Ec; [|reflexivity].
+  apply eqb_bytes_eq in Ec. subst b. destruct (Hc r Hw) as [x [r' [Hr Hx]]]. subst r. subst w.
+  cbn [CRAM_MAGIC app nth_error]. rewrite Hx. reflexivity.
 Qed.
 
 Lemma detect_a_bam_raw : forall r i, detect_a (BAM_MAGIC ++ r) i = Ok (Bam, CNone).
 Proof. intros r i. reflexivity. Qed.
 
-Lemma detect_a_cram : forall r i, detect_a (CRAM_MAGIC ++ r) i = Ok (Cram, CNone).
-Proof. intros r i. reflexivity. Qed.
+Lemma detect_a_cram : forall r i,
+  match r with [] => True | b :: _ => sam_cont b = false end ->
+  detect_a (CRAM_MAGIC ++ r) i = Ok (Cram, CNone).
+Proof.
+  intros r i H. destruct r as [|b r]; [reflexivity|].
+  unfold detect_a, build_a, detect_format_a. cbn [CRAM_MAGIC app detect_compression get_to length Nat.leb firstn
+    eqb_bytes GZIP_MAGIC BAM_MAGIC N.eqb Pos.eqb andb nth_error].
+  rewrite H. reflexivity.
+Qed.
 
 Lemma detect_v_vcf_none : forall w i,
   (forall r, w <> 31 :: 139 :: r) -> (forall r, w <> BCF_MAGIC ++ r) -> detect_v w i = Ok (Vcf, CNone).
@@ -121,25 +131,25 @@ Proof. intros r i. reflexivity. Qed.
 (* a gzip window: the decision is a function of the inflated bytes only *)
 Lemma detect_a_gz : forall r i,
   detect_a (31 :: 139 :: r) i =
-  match read_exact_infl 4 i with
+  match read_upto_infl 4 i with
   | Err e => Err e
   | Ok b => if eqb_bytes b BAM_MAGIC then Ok (Bam, CBgzf) else Ok (Sam, CBgzf)
   end.
 Proof.
   intros r i. unfold detect_a, build_a. rewrite detect_compression_bgzf. unfold detect_format_a.
-  destruct (read_exact_infl 4 i) as [b|e]; [|reflexivity].
+  destruct (read_upto_infl 4 i) as [b|e]; [|reflexivity].
   destruct (eqb_bytes b BAM_MAGIC); reflexivity.
 Qed.
 
 Lemma detect_v_gz : forall r i,
   detect_v (31 :: 139 :: r) i =
-  match read_exact_infl 3 i with
+  match read_upto_infl 3 i with
   | Err e => Err e
   | Ok b => if eqb_bytes b BCF_MAGIC then Ok (Bcf, CBgzf) else Ok (Vcf, CBgzf)
   end.
 Proof.
   intros r i. unfold detect_v, build_v. rewrite detect_compression_bgzf. unfold detect_format_v.
-  destruct (read_exact_infl 3 i) as [b|e]; [|reflexivity].
+  destruct (read_upto_infl 3 i) as [b|e]; [|reflexivity].
   destruct (eqb_bytes b BCF_MAGIC); reflexivity.
 Qed.
 
@@ -148,24 +158,32 @@ Qed.
 Lemma detect_a_never_cram_bgzf : forall w i, detect_a w i <> Ok (Cram, CBgzf).
 Proof.
   intros w i. destruct (detect_compression_cases w) as [[Hc [r Hr]]|[Hc Hn]].
-  - subst w. rewrite detect_a_gz. destruct (read_exact_infl 4 i) as [b|e]; [|discriminate].
+  - subst w. rewrite detect_a_gz. destruct (read_upto_infl 4 i) as [b|e]; [|discriminate].
     destruct (eqb_bytes b BAM_MAGIC); discriminate.
   - unfold detect_a, build_a. rewrite Hc. unfold detect_format_a.
     destruct (get_to 4 w) as [b|]; [|discriminate].
-    destruct (eqb_bytes b BAM_MAGIC); [discriminate|]. destruct (eqb_bytes b CRAM_MAGIC); discriminate.
+    destruct (eqb_bytes b BAM_MAGIC); [discriminate|]. destruct (eqb_bytes b CRAM_MAGIC); [|discriminate].
+    destruct (nth_error w 4) as [x|]; [destruct (sam_cont x)|]; discriminate.
 Qed.
 
-(* fewer than n inflated bytes: the builder fails with the decoder's stop error (F13 shape) *)
-Lemma detect_a_gz_short : forall r i, (length (avail i) < 4)%nat -> detect_a (31 :: 139 :: r) i = Err (stop i).
+(* fewer than n inflated bytes: a clean end of the stream means "not BAM / BCF"; a decoder error
+   (e.g. a member cut off inside the window) is reported *)
+Lemma detect_a_gz_short : forall r i, (length (avail i) < 4)%nat ->
+  detect_a (31 :: 139 :: r) i = match stop i with None => Ok (Sam, CBgzf) | Some e => Err e end.
 Proof.
-  intros r i H. rewrite detect_a_gz. unfold read_exact_infl.
-  replace (4 <=? length (avail i))%nat with false by (symmetry; apply Nat.leb_gt; exact H). reflexivity.
+  intros r i H. rewrite detect_a_gz. unfold read_upto_infl.
+  replace (4 <=? length (avail i))%nat with false by (symmetry; apply Nat.leb_gt; exact H).
+  destruct (stop i); [reflexivity|].
+  rewrite eqb_bytes_neq; [reflexivity|]. intro X. rewrite X in H. cbn in H. lia.
 Qed.
 
-Lemma detect_v_gz_short : forall r i, (length (avail i) < 3)%nat -> detect_v (31 :: 139 :: r) i = Err (stop i).
+Lemma detect_v_gz_short : forall r i, (length (avail i) < 3)%nat ->
+  detect_v (31 :: 139 :: r) i = match stop i with None => Ok (Vcf, CBgzf) | Some e => Err e end.
 Proof.
-  intros r i H. rewrite detect_v_gz. unfold read_exact_infl.
-  replace (3 <=? length (avail i))%nat with false by (symmetry; apply Nat.leb_gt; exact H). reflexivity.
+  intros r i H. rewrite detect_v_gz. unfold read_upto_infl.
+  replace (3 <=? length (avail i))%nat with false by (symmetry; apply Nat.leb_gt; exact H).
+  destruct (stop i); [reflexivity|].
+  rewrite eqb_bytes_neq; [reflexivity|]. intro X. rewrite X in H. cbn in H. lia.
 Qed.
 
 (* ------------------------------------------------------------------------------------- *)
@@ -308,7 +326,7 @@ Section Deflate.
       + exact (window_not_starts _ k BAM_MAGIC B).
       + exact (window_not_starts _ k CRAM_MAGIC (C Ha)).
     - destruct Hk as [H2 H4]. destruct (gz_window (sam_text hdr recs) k H2) as [r Hr].
-      rewrite Hr at 1. rewrite detect_a_gz. unfold read_exact_infl.
+      rewrite Hr at 1. rewrite detect_a_gz. unfold read_upto_infl.
       replace (4 <=? _)%nat with true by (symmetry; apply Nat.leb_le; exact H4).
       rewrite (gz_avail _ _ 4 H4).
       destruct (sam_text_not_magic hdr recs Hok) as [_ [B _]].
@@ -316,7 +334,7 @@ Section Deflate.
     - cbn in Hk. destruct (window_app_ge BAM_MAGIC rest k Hk) as [r Hr].
       unfold bam_payload. rewrite Hr. apply detect_a_bam_raw.
     - destruct Hk as [H2 H4]. destruct (gz_window (bam_payload rest) k H2) as [r Hr].
-      rewrite Hr at 1. rewrite detect_a_gz. unfold read_exact_infl.
+      rewrite Hr at 1. rewrite detect_a_gz. unfold read_upto_infl.
       replace (4 <=? _)%nat with true by (symmetry; apply Nat.leb_le; exact H4).
       rewrite (gz_avail _ _ 4 H4). reflexivity.
     - cbn in Hk. destruct (window_app_ge CRAM_MAGIC (major :: minor :: rest) k Hk) as [r Hr].
@@ -333,13 +351,13 @@ Section Deflate.
       + exact (window_not_starts _ k [31; 139] A).
       + exact (window_not_starts _ k BCF_MAGIC B).
     - destruct Hk as [H2 H3]. destruct (gz_window (vcf_text rest) k H2) as [r Hr].
-      rewrite Hr at 1. rewrite detect_v_gz. unfold read_exact_infl.
+      rewrite Hr at 1. rewrite detect_v_gz. unfold read_upto_infl.
       replace (3 <=? _)%nat with true by (symmetry; apply Nat.leb_le; exact H3).
       rewrite (gz_avail _ _ 3 H3). reflexivity.
     - cbn in Hk. destruct (window_app_ge BCF_MAGIC (2 :: 2 :: rest) k Hk) as [r Hr].
       unfold bcf_payload. rewrite Hr. apply detect_v_bcf_raw.
     - destruct Hk as [H2 H3]. destruct (gz_window (bcf_payload rest) k H2) as [r Hr].
-      rewrite Hr at 1. rewrite detect_v_gz. unfold read_exact_infl.
+      rewrite Hr at 1. rewrite detect_v_gz. unfold read_upto_infl.
       replace (3 <=? _)%nat with true by (symmetry; apply Nat.leb_le; exact H3).
       rewrite (gz_avail _ _ 3 H3). reflexivity.
   Qed.
